@@ -7,13 +7,14 @@ import json
 from common import NCPU, MachineryError, run_parallel, tagged_lines, tlc
 
 
-def _cfg(wd, name, seeds, layout, ternary, module_consts="") -> str:
+def _cfg(wd, name, seeds, layout, ternary, fam="S", module_consts="") -> str:
     f = wd / f"{name}.cfg"
     f.write_text(
         "SPECIFICATION Spec\nCONSTANTS\n"
         f"  Seeds = {{{', '.join(str(s) for s in seeds)}}}\n"
         f'  Layout = "{layout}"\n'
         f"  Ternary = {{{', '.join(str(s) for s in ternary)}}}\n"
+        f'  Fam = "{fam}"\n'
         f"{module_consts}"
         "POSTCONDITION Consumed\nCHECK_DEADLOCK FALSE\n"
     )
@@ -24,7 +25,7 @@ def weight(grp: dict) -> int:
     return 1 + len(grp["recs"]) * (2 ** len(grp["n"])) * (1 + len(grp["b"]))
 
 
-def validate(wd, groups: list[dict], *, seeds=(1, 2), layout="edge", ternary=(), tag="tv",
+def validate(wd, groups: list[dict], *, seeds=(1, 2), layout="edge", ternary=(), fam="S", tag="tv",
              module="TV.tla", timeout=3000, shards: int = NCPU) -> tuple[dict, dict]:
     """Return ({record id: verdict}, stats). Raises MachineryError unless every record got a verdict."""
     groups = [g for g in groups if g["recs"]]
@@ -38,7 +39,7 @@ def validate(wd, groups: list[dict], *, seeds=(1, 2), layout="edge", ternary=(),
         k = load.index(min(load))
         bins[k].append(groups[i])
         load[k] += weight(groups[i])
-    cfg = _cfg(wd, tag, seeds, layout, ternary)
+    cfg = _cfg(wd, tag, seeds, layout, ternary, fam)
     jobs = []
     for k, b in enumerate(bins):
         f = wd / f"{tag}-trace{k}.json"
